@@ -111,5 +111,7 @@ def choose(
     """
     choices = numpoly.aspolynomial(choices)
     a = numpy.asarray(a)
-    result = numpy.choose(a, choices=choices.values, out=out, mode=mode)
+    result = numpy.asarray(
+        numpy.choose(a, choices=choices.values, out=out, mode=mode)
+    )
     return numpoly.aspolynomial(result, names=choices.indeterminants)
